@@ -57,7 +57,7 @@ public:
             HOST_UNIQ = 0x301,
             AC_COOKIE = 0x401,
             VENDOR_SPECIFIC = 0x501,
-            RELAY_SESSION_ID = 0x101,
+            RELAY_SESSION_ID = 0x1001,
             SERVICE_NAME_ERROR = 0x102,
             AC_SYSTEM_ERROR = 0x202,
             GENERIC_ERROR = 0x302
